@@ -251,6 +251,11 @@ hwloc_cpukinds_register(hwloc_topology_t topology, hwloc_cpuset_t _cpuset,
     return -1;
   }
 
+  if (topology->adopted_shmem_addr) {
+    errno = EPERM;
+    return -1;
+  }
+
   cpuset = hwloc_bitmap_dup(_cpuset);
   if (!cpuset)
     return -1;
